@@ -1,19 +1,54 @@
-(* Property C01 — pool reserves are always fully backed by the pool manager's real balances. PARTIAL.
-   Proved, per handler, for every input (flow of funds between reserves and messages):
-   swap / router hops add the whole offer and remove exactly what the messages send or burn (C04); a deposit of two
-   or more assets adds every attached coin to its reserve and emits nothing but freshly minted LP (to the receiver, or
-   through the pool manager to the farm manager for the depositor); a withdrawal sends exactly the refunds it
-   subtracts and burns exactly the LP it received; pool creation forwards the creation fee and consumes the
-   token-factory fee; single-asset deposits are a swap of half to itself followed by that deposit (C14); rejected
-   operations change nothing (chain model).
-   NOT proved: the inductive invariant over all histories "bank balance >= sum of reserves, excess only from
-   donations / the odd unit, only minimum-liquidity LP held" itself (it needs the composition of these flows with
-   the bank module through arbitrary call trees). It is checked on every run, on the IMPLEMENTATION's snapshots, by
-   the decidable monitor Monitors.mon_C01 (bank balance of the pool manager >= sum of reported reserves, per denom,
-   after every operation of every generated history), and through the correspondence of all balances.
+(* Property C01 — pool reserves are always fully backed by the pool manager's real balances.
+   PROVED for all histories (the lower bound, which is the safety content of the property):
+     C01_backed_in_every_reachable_world — from any genesis, after ANY finite history of transactions by any users
+       (pool creation, deposits of any shape incl. single-asset and locked ones, withdrawals, direct and routed swaps,
+       config changes, calls between the four contracts, rejected operations, bank sends to the contract, injected
+       bank faults), for every denom, the sum of the reserves of all pools <= the pool manager's bank balance.
+     C01_preserved_by_every_operation — the inductive step.   C01_every_message_is_accounted — the per-message
+     accounting the induction rests on:   reserves' + what the emitted messages take out <= reserves + attached funds.
+   Hypotheses (op_okP): no transaction is signed by the pool manager's own address (contracts cannot sign), and a
+   configured pool creation fee stays below 2^127 (so fee sums stay inside u128).
+   Also proved, per handler, for every input: the exact flow of funds (swap / deposit / withdrawal) and that
+   rejected operations change nothing.
+   NOT proved (checked on the implementation's snapshots by Monitors.mon_C01 instead): the UPPER bound "any excess
+   comes only from donations or the odd unit of a single-asset deposit" and "the only LP tokens held are the
+   minimum liquidity".
    Statements only. *)
 From MD.Model Require Import Base Ownable Epoch PoolMath Types PoolManager FarmManager Chain.
-From MD.Proofs Require Import PoolMathProofs SwapProofs ChainProofs PmProofs LiquidityProofs.
+From MD.Proofs Require Import PoolMathProofs BankProofs SwapProofs ChainProofs PmProofs LiquidityProofs PoolCustody PoolCustodyChain.
+
+Theorem C01_backed_in_every_reachable_world : forall g w0 ops,
+  genesis_world g = Ok w0 -> 0 <= amount_of (fm_create_fee (g_fm g)) ->
+  NoDup (map denom_of (g_tf_fee g)) -> (forall f, In f (g_tf_fee g) -> 0 <= amount_of f <= HALF_U128) ->
+  0 <= amount_of (g_pm_fee g) <= HALF_U128 ->
+  Forall op_okP ops ->
+  forall d, ssum (fun p => camt (p_assets p) d) (pm_pools (w_pm (run w0 ops))) <= bal (w_bank (run w0 ops)) PM d.
+Proof. exact reachable_backed. Qed.
+
+Theorem C01_preserved_by_every_operation : forall w o,
+  op_okP o -> pool_custody w -> pool_custody (fst (step w o)).
+Proof. exact step_pool_custody. Qed.
+
+Theorem C01_preserved_by_every_history : forall ops w,
+  Forall op_okP ops -> pool_custody w -> pool_custody (run w ops).
+Proof. exact run_pool_custody. Qed.
+
+Theorem C01_every_message_is_accounted : forall w sender funds m s' msgs,
+  fees_small w -> coins_ok funds = true -> pm_msg_small m ->
+  pm_execute w sender funds m = Ok (s', msgs) ->
+  (forall d, res s' d + outP (w_tf_fee w) msgs d <= res (w_pm w) d + camt funds d) /\
+  (0 <= amount_of (pm_creation_fee (pm_cfg s')) <= HALF_U128).
+Proof. exact pm_execute_accounted. Qed.
+
+(* inside a transaction: any call tree run by the chain lowers (balance - reserves) by at most what the running
+   contract's own pending messages are entitled to take out *)
+Theorem C01_call_trees : forall f w c subs w' fl,
+  process f w c subs = (Ok w', fl) ->
+  pinv w -> Forall small_call subs ->
+  (String.eqb c PM = true -> pm_list_ok w subs) ->
+  pinv w' /\ w_tf_fee w' = w_tf_fee w /\
+  forall d, slackP w d - (if String.eqb c PM then outP (w_tf_fee w) subs d else 0) <= slackP w' d.
+Proof. exact process_pool. Qed.
 
 Theorem C01_swap_flow : forall s offer ask pid belief ms s' sc,
   perform_swap s offer ask pid belief ms = Ok (s', sc) ->
@@ -58,6 +93,11 @@ Theorem C01_rejected_operations_change_nothing : forall w o,
   snd (step w o) = false -> fst (step w o) = set_fault w None \/ fst (step w o) = w.
 Proof. exact step_rejected_unchanged. Qed.
 
+Print Assumptions C01_backed_in_every_reachable_world.
+Print Assumptions C01_preserved_by_every_operation.
+Print Assumptions C01_preserved_by_every_history.
+Print Assumptions C01_every_message_is_accounted.
+Print Assumptions C01_call_trees.
 Print Assumptions C01_swap_flow.
 Print Assumptions C01_deposit_flow.
 Print Assumptions C01_withdraw_flow.
